@@ -21,7 +21,7 @@ RULE = (
     "'did not return' (counted, not judged); non-trivial = the operation returned and the input has >=2 plates or >=2 samples"
 )
 ASSUMPTIONS = ["per-plate hold-out count: ceil of the float product, of the exact rational product, and of the decimal reading of the fraction are all accepted"]
-REQUIRED = {"generator_returns": {"quick": 600, "thorough": 9000}, "smoother_returns": {"quick": 1000, "thorough": 15000}, "holdout_returns": {"quick": 500, "thorough": 7000}, "input_unchanged_checks": {"quick": 3500, "thorough": 50000}}
+REQUIRED = {"generator_returns": {"quick": 600, "thorough": 9000}, "smoother_returns": {"quick": 1000, "thorough": 15000}, "holdout_returns": {"quick": 500, "thorough": 7000}, "input_unchanged_checks": {"quick": 3500, "thorough": 50000}, "ops_after_in_place_reveal": {"quick": 150, "thorough": 2500}}
 N_OPS = {"quick": 4000, "thorough": 56000}
 
 
@@ -103,6 +103,13 @@ def run_shard(rec, tier, seed, shard, nshards):
             kw, flavour = RC.retro_screen_kwargs(rng)
             screen = Screen(**kw)
             shash = kit.array_hash(screen.observations) + kit.array_hash(screen.plate_names)
+        if rng.random() < 0.15 and not bool(np.all(screen.observation_mask)):
+            # the caller reveals a plate on the same Screen object before going on
+            un = [p for p in np.unique(screen.plate_names) if not screen.observation_mask[screen.plate_names == p][0]]
+            p = str(rng.choice(un))
+            sel = np.asarray(screen.plate_names == p)
+            screen.set_observed(sel, screen.observations[sel].copy())
+            rec.count("ops_after_in_place_reveal")
         kind, name, params, fn = RC.make_operation(rng, R, screen)
         g, gstate = RC.rng_state_variant(shared, rng)
         before = RC.screen_fingerprint(kit, screen)
